@@ -138,11 +138,11 @@ func (s *icmpDriver) ReceiveProbe(timeout time.Duration) (*common.ProbeResponse,
 	return s.handleProbeLayers(s.parser)
 }
 
-func (s *icmpDriver) getRTTFromRelSeq(relSeq uint8) (time.Duration, error) {
-	if relSeq < s.params.ParallelParams.MinTTL || relSeq > s.params.ParallelParams.MaxTTL {
+func (s *icmpDriver) getRTTFromRelSeq(relSeq uint16) (time.Duration, error) {
+	if relSeq < uint16(s.params.ParallelParams.MinTTL) || relSeq > uint16(s.params.ParallelParams.MaxTTL) {
 		return 0, fmt.Errorf("getRTTFromRelSeq: invalid relative sequence number %d", relSeq)
 	}
-	t, ok := s.findMatchingProbe(relSeq)
+	t, ok := s.findMatchingProbe(uint8(relSeq))
 	if !ok || t.IsZero() {
 		return 0, fmt.Errorf("getRTTFromRelSeq: no probe sent for relative sequence number %d", relSeq)
 	}
@@ -187,7 +187,7 @@ func (s *icmpDriver) handleProbeLayers(parser *packets.FrameParser) (*common.Pro
 			if uint16(echo.ID) != s.echoID {
 				return nil, &common.BadPacketError{Err: fmt.Errorf("mismatched echo ID")}
 			}
-			rtt, err := s.getRTTFromRelSeq(uint8(echo.Seq))
+			rtt, err := s.getRTTFromRelSeq(uint16(echo.Seq))
 			if err != nil {
 				return nil, &common.BadPacketError{Err: fmt.Errorf("icmpDriver failed to get RTT: %w", err)}
 			}
@@ -201,7 +201,7 @@ func (s *icmpDriver) handleProbeLayers(parser *packets.FrameParser) (*common.Pro
 			if parser.ICMP4.Id != s.echoID {
 				return nil, &common.BadPacketError{Err: fmt.Errorf("mismatched echo ID")}
 			}
-			rtt, err := s.getRTTFromRelSeq(uint8(parser.ICMP4.Seq))
+			rtt, err := s.getRTTFromRelSeq(parser.ICMP4.Seq)
 			if err != nil {
 				return nil, &common.BadPacketError{Err: fmt.Errorf("icmpDriver failed to get RTT: %w", err)}
 			}
@@ -242,7 +242,7 @@ func (s *icmpDriver) handleProbeLayers(parser *packets.FrameParser) (*common.Pro
 			if echo.Identifier != s.echoID {
 				return nil, &common.BadPacketError{Err: fmt.Errorf("mismatched echo ID")}
 			}
-			rtt, err := s.getRTTFromRelSeq(uint8(echo.SeqNumber))
+			rtt, err := s.getRTTFromRelSeq(echo.SeqNumber)
 			if err != nil {
 				return nil, &common.BadPacketError{Err: fmt.Errorf("icmpDriver failed to get RTT: %w", err)}
 			}
@@ -262,7 +262,7 @@ func (s *icmpDriver) handleProbeLayers(parser *packets.FrameParser) (*common.Pro
 			if id != s.echoID {
 				return nil, &common.BadPacketError{Err: fmt.Errorf("mismatched echo ID")}
 			}
-			rtt, err := s.getRTTFromRelSeq(uint8(seq))
+			rtt, err := s.getRTTFromRelSeq(seq)
 			if err != nil {
 				return nil, &common.BadPacketError{Err: fmt.Errorf("icmpDriver failed to get RTT: %w", err)}
 			}
